@@ -127,7 +127,8 @@ def cargo_toml(name, cfg):
     return ('[package]\nname = "%s"\nversion = "0.0.0"\nedition = "2021"\n\n[dependencies]\n'
             'leptos = { version = "0.7.7", features = ["ssr"] }\n'
             'leptos_i18n = { path = "%s/leptos_i18n", default-features = false, features = [%s] }\n'
-            'any_spawner = { version = "0.2", features = ["futures-executor"] }\n\n' % (name, vp.REPO, ", ".join(FEATURES))
+            'any_spawner = { version = "0.2", features = ["futures-executor"] }\n'
+            'serde_json = "1"\nfutures = "0.3"\n\n' % (name, vp.REPO, ", ".join(FEATURES))
             ) + "[package.metadata.leptos-i18n]" + vp.manifest_text(cfg).split("[package.metadata.leptos-i18n]")[1]
 
 
